@@ -45,6 +45,8 @@ def gen_model(rng, idx):
       x = L.DepthwiseConv2D(3, padding="same", activation=act, use_bias=ub, name=name)(x)
     else:
       x = L.SeparableConv2D(int(rng.integers(1, 5)), 3, padding="same", activation=act, use_bias=ub, name=name)(x)
+    if rng.integers(0, 3) == 0:
+      x = L.BatchNormalization(name=f"bn_{idx}_{j}")(x)        # non-trainable state (moving statistics) that a weight transfer must carry too
     if rng.integers(0, 2):
       a2 = ["relu", "tanh", "sigmoid", "softmax"][int(rng.integers(0, 4))]
       x = L.Activation(a2, name=f"act_{idx}_{j}")(x)
@@ -59,7 +61,15 @@ def gen_model(rng, idx):
   for j in range(nd):
     act = acts[int(rng.integers(0, len(acts)))]
     x = L.Dense(int(rng.integers(1, 6)), activation=act, use_bias=bool(rng.integers(0, 2)), name=f"dense_{idx}_{j}")(x)
-  return Model(inp, x, name=f"m{idx}")
+  m = Model(inp, x, name=f"m{idx}")
+  # a trained model: no weight sits at its initial value, some layers are frozen
+  for l in m.layers:
+    if l.get_weights() and rng.integers(0, 4) == 0:
+      l.trainable = False
+  m.set_weights([rng.uniform(0.2, 1.5, size=w.shape).astype("float32") * rng.choice([-1.0, 1.0], size=w.shape).astype("float32")
+                 if "variance" not in getattr(v, "path", getattr(v, "name", "")) else rng.uniform(0.2, 1.5, size=w.shape).astype("float32")
+                 for v, w in zip(m.weights, m.get_weights())])
+  return m
 
 
 def gen_dict(rng, model):
